@@ -310,7 +310,13 @@ func pdUnusual(op, pos string, level int, _ *rand.Rand) []concrete {
 			mk("pattern-two-capture-groups", func(n *node) { setFields(n, field("$.issuer", obj("type", str("string"), "pattern", str("(did):(nuts)")))) }),
 			mk("pattern-lookbehind-backreference", func(n *node) { setFields(n, field("$.issuer", obj("type", str("string"), "pattern", str(`(?<=d)(i)\1*`)))) }),
 			mk("pattern-empty", func(n *node) { setFields(n, field("$.issuer", obj("type", str("string"), "pattern", str("")))) }),
-			mk("pattern-nested-quantifier", func(n *node) { setFields(n, field("$.issuer", obj("type", str("string"), "pattern", str(`^(\w+)*!$`)))) }),
+			mk("pattern-nested-quantifier-on-did", func(n *node) { setFields(n, field("$.issuer", obj("type", str("string"), "pattern", str(`(\w+)*!`)))) }),
+			mk("pattern-nested-quantifier-on-name", func(n *node) {
+				setFields(n, field("$.credentialSubject.organization.name", obj("type", str("string"), "pattern", str(`^([\w ]+)*!$`))))
+			}),
+			mk("pattern-alternation-overlap-on-name", func(n *node) {
+				setFields(n, field("$.credentialSubject.organization.name", obj("type", str("string"), "pattern", str(`^(\w|\w\w| )+!$`))))
+			}),
 			mk("path-empty-string", func(n *node) { setFields(n, field("", nil)) }),
 			mk("path-not-jsonpath", func(n *node) { setFields(n, field("credentialSubject", nil)) }),
 			mk("path-unbalanced", func(n *node) { setFields(n, field("$.a[", nil)) }),
